@@ -11,7 +11,7 @@ from lib.util import digest
 from checks import scenarios as S
 
 PROP = "C05"
-LEVEL = "proof"
+LEVEL = "translation_validation"
 THEOREMS = {
             "Proofs.Props.Tables": ["MsPack.TableObligations.szdd_signatures"]}
 ASSUMPTIONS = ["LZSS / LZH / MSZIP payload round trips are not theorems yet: covered by model/implementation agreement and the plan oracle",
